@@ -103,7 +103,8 @@ def tlc(module, cfg=None, workers=None, cwd=SPEC, env=None, timeout=1800, extra=
     if own_meta:
         metadir = os.path.join(WORKROOT, "meta-%d-%d" % (os.getpid(), int(time.time() * 1e6) % 10**9))
     os.makedirs(metadir, exist_ok=True)
-    cmd = ["java", "-XX:+UseParallelGC", "-Xmx" + heap, "-Xss16m", "-DTLA-Library=" + SPEC, "-cp", TLA_CP, "tlc2.TLC",
+    # (TLC leaves an empty tlc-<n> directory in java.io.tmpdir per run: keep them inside the run's own scratch directory)
+    cmd = ["java", "-XX:+UseParallelGC", "-Xmx" + heap, "-Xss16m", "-Djava.io.tmpdir=" + metadir, "-DTLA-Library=" + SPEC, "-cp", TLA_CP, "tlc2.TLC",
            "-metadir", metadir, "-noGenerateSpecTE", "-workers", str(workers or 1)]
     if cfg:
         cmd += ["-config", cfg]
